@@ -45,3 +45,4 @@ include!("c02.rs");
 include!("c01.rs");
 include!("c09.rs");
 include!("c10.rs");
+include!("c11.rs");
